@@ -57,6 +57,7 @@ var ConcreteURI = map[string]string{
 	"ucx":  "https://cx.example.test/cb",
 	"ucp":  "com.example.cp:/oauth/cb",
 	"ucj":  "https://cj.example.test/cb",
+	"ucn":  "http://127.0.0.1:7777/cn/cb",
 	"evil": "https://evil.example.test/cb",
 	"plcw": "https://cw.example.test/bye",
 	"plcx": "https://cx.example.test/bye?x=1",
